@@ -1598,7 +1598,7 @@ public:
 		}
 		else {
 			if (_block[0] != 1ul) return false;
-			for (unsigned i = 1; i < nrBlocks - 2; ++i) if (_block[i] != 0) return false;
+			for (unsigned i = 1; i < nrBlocks - 1; ++i) if (_block[i] != 0) return false;
 			return (_block[MSU] == SIGN_BIT_MASK);
 		}
 	}
